@@ -174,3 +174,64 @@ func KeyExchange(ab, ba *state.Session) error {
 	}
 	return nil
 }
+
+// Pair is two routers A (sender) and B (receiver) that know each other and
+// completed one real end-to-end key exchange. The original encryption
+// sessions keep the kx keys so that fresh session objects with the same keys
+// (fresh sequence windows/counters) can be derived through the real API.
+type Pair struct {
+	A, B         *Instance
+	AB, BA       *state.Session
+	OrigA, OrigB *state.EncryptionSession
+	Purpose      string
+}
+
+// NewPair builds a pair from the PRNG.
+func NewPair(r *rand.Rand, purpose string) *Pair {
+	return NewPairWith(NewIdentity(r, nil), NewIdentity(r, nil), purpose)
+}
+
+// NewPairWith builds a pair for given identities.
+func NewPairWith(idA, idB *m.Address, purpose string) *Pair {
+	p := &Pair{Purpose: purpose}
+	p.A = NewBareInstance(idA, nil)
+	p.B = NewBareInstance(idB, nil)
+	var err error
+	p.AB, p.BA, err = Introduce(p.A, p.B)
+	if err != nil {
+		panic(err)
+	}
+	if err := KeyExchange(p.AB, p.BA); err != nil {
+		panic(err)
+	}
+	p.OrigA = p.AB.Encryption()
+	p.OrigB = p.BA.Encryption()
+	p.FreshSender()
+	p.FreshReceiver()
+	return p
+}
+
+// FreshSender gives A's session for B a fresh encryption session (same keys).
+func (p *Pair) FreshSender() {
+	enc, err := p.OrigA.DeriveSessionFromKX(true, p.Purpose)
+	if err != nil {
+		panic(err)
+	}
+	p.AB.SetEncryptionSession(enc)
+}
+
+// FreshReceiver gives B a fresh state manager and session for A (fresh signed
+// timestamp filter) with a fresh encryption session (same keys, fresh windows).
+func (p *Pair) FreshReceiver() {
+	p.B = NewBareInstance(p.B.IdentityV, p.B.ConfigV)
+	pa := p.A.IdentityV.PublicAddress
+	if err := p.B.StateV.AddRouter(&pa); err != nil {
+		panic(err)
+	}
+	p.BA = p.B.StateV.GetSession(pa.IP)
+	enc, err := p.OrigB.DeriveSessionFromKX(false, p.Purpose)
+	if err != nil {
+		panic(err)
+	}
+	p.BA.SetEncryptionSession(enc)
+}
